@@ -969,6 +969,14 @@ func evalClausesConcrete(run *PropRun, c0 *Ctx, g *ObGroup, ins []interface{}, r
 					for a := 0; a < sig.Params().Len() && a < len(args); a++ {
 						rec.Args = append(rec.Args, c.jsonToValue(st, sig.Params().At(a).Type(), args[a]))
 					}
+					// the generated stubs return zero values
+					switch sig.Results().Len() {
+					case 0:
+					case 1:
+						rec.Ret = c.zeroValue(st, sig.Results().At(0).Type())
+					default:
+						rec.Ret = c.zeroValue(st, sig.Results())
+					}
 					break
 				}
 			}
@@ -1028,7 +1036,14 @@ func evalClausesConcrete(run *PropRun, c0 *Ctx, g *ObGroup, ins []interface{}, r
 			c.oblige(st, name, "ensures", t, en.Src, fn.Pos())
 		})
 	}
-	tryClause("calls", "calls", func() { c.checkCalls(st, fr, "return") })
+	c.curRet = ret
+	for i := range sp.Calls {
+		i := i
+		tryClause("calls", "calls", func() {
+			c.callsAtReturn = true
+			c.checkCallClause(st, fr, sp.Calls[i], i)
+		})
+	}
 	var failed []string
 	want := g.Name
 	for _, o := range c.Obs {
